@@ -69,26 +69,34 @@ def run(ck):
             same += 1
     ck.extra_cov['firmware_binaries_identical'] = same
     # 4. the firmware tools against Dsp1.tla
-    ck.mc('MC_Dsp1', ck.pick('MC_Dsp1.cfg', 'MC_Dsp1_deep.cfg'), workers=8, timeout=1800, coverage=False)
-    r = ck.mc('MC_Dsp1', 'MC_Dsp1_neg.cfg', workers=4, must_hold=False, coverage=False)
-    if not r.violated:
-        raise vlib.Infra('MC_Dsp1_neg.cfg (two-word data words inside a program segment) must violate the stream clause')
+    dsp1_clause(ck, 16, ck.pick(40, 400), model=True)
+    ck.assumptions += ['TeakDecodeTable.tla was transcribed once from the pinned decoder.h and is frozen in /verif',
+                       'execution equality of a word and its canonical form follows from same decode row + operands (C02) and C01',
+                       'TLC, CommunityModules and g++ are trusted']
+
+
+def dsp1_clause(ck, nfiles, n, model=False, tag='dsp1'):
+    """Random firmware sources through the repository's own makedsp1 / dsp1_reader, validated against Dsp1.tla (also used by
+    C02: the reader is one more consumer that has to agree on every instruction's length)."""
+    ck.build('asm_rec', 'makedsp1', 'dsp1_reader')
+    if model:
+        ck.mc('MC_Dsp1', ck.pick('MC_Dsp1.cfg', 'MC_Dsp1_deep.cfg'), workers=8, timeout=1800, coverage=False)
+        r = ck.mc('MC_Dsp1', 'MC_Dsp1_neg.cfg', workers=4, must_hold=False, coverage=False)
+        if not r.violated:
+            raise vlib.Infra('MC_Dsp1_neg.cfg (two-word data words inside a program segment) must violate the stream clause')
     tool = os.path.join(os.path.dirname(os.path.dirname(os.path.abspath(__file__))), 'dsp1_rec.py')
     pool = os.path.join(ck.work, 'dsp1_pool.json')
     p = vlib.sh('python3 %s --make-pool --asm %s --pool %s --work %s' % (tool, ck.bin('asm_rec'), pool, ck.work), timeout=600)
     if p.returncode != 0:
         raise vlib.Infra('dsp1_rec --make-pool failed:\n' + p.stdout[-2000:])
-    dfiles = [os.path.join(ck.work, 'dsp1_%02d.ndjson' % i) for i in range(16)]
+    dfiles = [os.path.join(ck.work, '%s_%02d.ndjson' % (tag, i)) for i in range(nfiles)]
     ck.run_jobs(['python3 %s --pool %s --makedsp1 %s --reader %s --n %d --seed %d --work %s --out %s' %
-                 (tool, pool, ck.bin('makedsp1'), ck.bin('dsp1_reader'), ck.pick(40, 400), ck.seed * 100 + i, ck.work, f)
+                 (tool, pool, ck.bin('makedsp1'), ck.bin('dsp1_reader'), n, ck.seed * 100 + i, ck.work, f)
                  for i, f in enumerate(dfiles)], timeout=3000)
     os.remove(pool)
     ck.validate_traces('Dsp1Trace', 'Trace_Dsp1.cfg', dfiles, timeout=1800, jvm=['-Xss256m'], sig_prefix='dsp1')
     ck.sample_lines(dfiles[0], 1, skip=1)
     ck.extra_cov['firmware_sources_generated'] = sum(1 for f in dfiles for _ in open(f))
-    ck.assumptions += ['TeakDecodeTable.tla was transcribed once from the pinned decoder.h and is frozen in /verif',
-                       'execution equality of a word and its canonical form follows from same decode row + operands (C02) and C01',
-                       'TLC, CommunityModules and g++ are trusted']
 
 
 def replay(ck, path):
